@@ -198,12 +198,41 @@ inductive BlockClass where
   | oversized
   | undecodable
 
-def classifyBlock (mfs : Option Nat) (b : List Nat) : BlockClass :=
+/-- where a field section stands in the message -/
+inductive Pos where
+  | request | response | trailers
+deriving DecidableEq
+
+def lowerName (n : List Nat) : Bool := !n.isEmpty && n.all (fun c => decide ((97 ≤ c ∧ c ≤ 122) ∨ (48 ≤ c ∧ c ≤ 57) ∨ c = 45))
+def hasUpper (n : List Nat) : Bool := n.any (fun c => decide (65 ≤ c ∧ c ≤ 90))
+def visible (v : List Nat) : Bool := v.all (fun c => decide (32 ≤ c ∧ c ≤ 126))
+
+/-- the sections the oracle has an opinion on: the control data RFC 9114 §4.3 demands for the position, first
+    and once (request: `:method` one of the registered methods used here, `:scheme` https, a non-empty
+    `:authority`, a `:path` beginning with `/`; response: a `:status` used here; trailers: none), then regular
+    fields whose names are tokens of letters, digits and `-` and whose values are visible ASCII.  Other
+    sections may be malformed for reasons that are C12's subject: no opinion. -/
+def inVocabulary (pos : Pos) (fs : List Fld) : Bool :=
+  let pseudo := fs.takeWhile (fun f => f.1.head? == some 58)
+  let regular := fs.dropWhile (fun f => f.1.head? == some 58)
+  let regOk := regular.all (fun f => lowerName (f.1.map (fun c => if 65 ≤ c ∧ c ≤ 90 then c + 32 else c)) && visible f.2)
+  let ctlOk : Bool :=
+    match pos, pseudo.map (fun f => (strOf f.1, strOf f.2)) with
+    | .request, [(":method", m), (":scheme", "https"), (":authority", a), (":path", p)] =>
+      ["GET", "POST", "PUT", "DELETE", "HEAD", "OPTIONS"].contains m && a != "" && visible (bytesOf a) &&
+        p.startsWith "/" && visible (bytesOf p)
+    | .response, [(":status", st)] => ["200", "304", "404", "503"].contains st
+    | .trailers, [] => true
+    | _, _ => false
+  regOk && ctlOk
+
+def classifyBlock (pos : Pos) (mfs : Option Nat) (b : List Nat) : BlockClass :=
   match H3.Spec.Qpack.specDecode b with
   | .error _ => .undecodable
   | .ok fs =>
     if (match mfs with | some m => decide (H3.Spec.Qpack.size fs > m) | none => false) then .oversized
-    else if fs.any (fun f => f.1.any (fun c => decide (65 ≤ c ∧ c ≤ 90))) then .malformed
+    else if !inVocabulary pos fs then .undecodable
+    else if fs.any (fun f => hasUpper f.1) then .malformed
     else .ok fs
 
 /-- a message as RFC 9114 §4.1 frames it: U* H (U|D)* (H U*)?, read off the tokens of the framing specification -/
@@ -282,6 +311,7 @@ def expectedTx (server : Bool) (s : Strm) : Option (List Nat) :=
 def specStream (server : Bool) (mfs wc : Option Nat) (s : Strm) : Option (List String × String) :=
   if s.bad then none else
   let headName := if server then "res" else "rr"
+  let headPos : Pos := if server then .request else .response
   let recv := (s.calls.filter (fun c => !isSendName c.name)).map (·.name)
   let sends := s.calls.filter (fun c => isSendName c.name)
   let patternOk := recv == [headName, "rm"] || recv == [headName, "rb", "rt"]
@@ -296,7 +326,7 @@ def specStream (server : Bool) (mfs wc : Option Nat) (s : Strm) : Option (List S
     -- RESET with any code at any byte offset of an otherwise valid message
     let m := msgOf s.rx false
     let headOk := match m.head with
-      | some b => (match classifyBlock mfs b with | .ok _ => true | _ => false)
+      | some b => (match classifyBlock headPos mfs b with | .ok _ => true | _ => false)
       | none => true
     if s.fin || !m.clean || !headOk || s.stop.isSome then none else fault [s!"rterm:{c}"]
   | none =>
@@ -308,7 +338,7 @@ def specStream (server : Bool) (mfs wc : Option Nat) (s : Strm) : Option (List S
       if s.stop.isSome then none
       else fault [if server then "stream:H3_REQUEST_INCOMPLETE" else "stream:H3_MESSAGE_ERROR"]
     | some hb =>
-      match classifyBlock mfs hb with
+      match classifyBlock headPos mfs hb with
       | .undecodable => none
       | .oversized => if s.stop.isSome then none else fault ["toobig"]
       | .malformed => if s.stop.isSome then none else fault ["stream:H3_MESSAGE_ERROR"]
@@ -318,7 +348,7 @@ def specStream (server : Bool) (mfs wc : Option Nat) (s : Strm) : Option (List S
           match m.trailers with
           | none => (some none, [])
           | some tb =>
-            match classifyBlock mfs tb with
+            match classifyBlock .trailers mfs tb with
             | .ok tfs => (some (some tfs), [])
             | .oversized => (none, ["toobig"])
             | .malformed => (none, ["stream:H3_MESSAGE_ERROR"])
